@@ -44,6 +44,11 @@ func checkC02(p *core.Program, r *core.Report) {
 	r.Rule("R1", "field coverage: for every struct in the engine/runs/flows/triggers/inputs packages that has a MarshalJSON (or marshal helper), each field is written by the marshal side and restored by the read side, or re-derived on the read side, or listed as transient with the reason a restart cannot be observed through it; a field that is written but never restored, or neither and unlisted, is a violation")
 	r.Rule("R2", "one envelope: marshal and read of a type use the same envelope struct, and every envelope field is both stored by the marshal side and loaded by the read side")
 	r.Rule("R3", "re-derived transient state is rebuilt on every entry: the function that re-derives session.parentRun dominates the loop/resume call in both start and Resume")
+	r.Rule("R4", "registry symmetry: in the trigger, resume, input, event, modifier, wait and hint packages the name a struct type is registered under for reading is the type name its constructors write into it")
+	typeRegistrySymmetry(p, r, "R4", func(rel string) bool {
+		return strings.HasPrefix(rel, "flows/triggers") || strings.HasPrefix(rel, "flows/resumes") || strings.HasPrefix(rel, "flows/inputs") || strings.HasPrefix(rel, "flows/events") || strings.HasPrefix(rel, "flows/modifiers") || strings.HasPrefix(rel, "flows/routers/waits")
+	})
+	r.Require("type_registries", r.Analysed["type_registries"], 6)
 	r.Assumption("equality of behaviour of the restored session is not decided; encoding/json round-trips exported, tagged fields of plain structs")
 
 	pkgSet := map[string]bool{}
